@@ -25,11 +25,11 @@ def compile_or_skip(spec, metrics=None, crash_is_violation=True):
         raise Skip("compiler_crash", "%s [%s]" % (type(e).__name__, frame))
 
 
-def run_or_violation(text, case, what="program"):
+def run_or_violation(text, case, what="program", watch=None):
     spec = case["spec"]
     try:
         return X.run_text(text, spec, case["extents"], case.get("scalars", {}), case.get("sizes", {}),
-                          X.inputs_from_json(case["inputs"]))
+                          X.inputs_from_json(case["inputs"]), watch=watch)
     except M.Unsupported as u:
         raise Skip("unsupported_by_model", str(u))
     except X.ProgramError as pe:
